@@ -850,6 +850,169 @@ def run_witness(ctx, which):
     return dict(o, violates=bool(bad))
 
 
+# ------------------------------------------------------------------------------ chunk-boundary probes
+def _png_of_size(rnd, target):
+    """a valid PNG file of exactly `target` bytes (a private ancillary chunk carries the padding)"""
+    import struct
+    import zlib
+    from PIL import Image
+    b = io.BytesIO()
+    _noise(rnd, "RGB", (6, 5)).save(b, format="PNG")
+    data = b.getvalue()
+    pad = target - len(data) - 12
+    if pad < 0:
+        return None
+    body = bytes(rnd.randrange(256) for _ in range(pad))
+    chunk = struct.pack(">I", pad) + b"prVt" + body + struct.pack(">I", zlib.crc32(b"prVt" + body) & 0xFFFFFFFF)
+    out = data[:-12] + chunk + data[-12:]          # before IEND
+    assert len(out) == target
+    Image.open(io.BytesIO(out)).load()
+    return out
+
+
+def boundary_child(work, seed):
+    """For several command-size limits and tmux depths: transmit a file inline, read the raw payload length L of its first
+    chunk off the wire, then make the SAME file (same path, same mtime => same description, same id, same header)
+    exactly 1, 2 and 3 chunks long (and one byte more / less) and upload_and_display it again."""
+    common.scrub_process_env()
+    os.environ["HOME"] = work
+    os.environ["XDG_STATE_HOME"] = os.path.join(work, "state")
+    os.environ["XDG_CONFIG_HOME"] = os.path.join(work, "config")
+    import tupimage
+    rnd = _random.Random(seed)
+    tty_in = open("/dev/tty", "rb", buffering=0)
+    out = []
+    for mcs, layers in ((4096, 0), (300, 0), (700, 1), (400, 0)):
+        d = os.path.join(work, f"bnd-{mcs}-{layers}")
+        os.makedirs(d, exist_ok=True)
+        path = os.path.join(d, "img.png")
+        cmd = common.RecStream()
+        disp = common.RecStream()
+        t = tupimage.TupimageTerminal(out_command=cmd, out_display=disp, in_response=tty_in, id_database=os.path.join(d, "s.db"), terminal_id="b", session_id="b",
+                                      config="DEFAULT", upload_method="direct", max_command_size=mcs, num_tmux_layers=layers, id_space="8bit", id_subspace="30:40",
+                                      redetect_terminal=False)
+
+        def put(content):
+            with open(path, "wb") as f:
+                f.write(content)
+            os.utime(path, ns=(1_700_000_000_000_000_000, 1_700_000_000_000_000_000))
+
+        put(_png_of_size(rnd, 9000))
+        n0 = len(cmd.writes)
+        t.upload_and_display(path, cols=2, rows=1, force_upload=True)
+        first = [bytes(w) for w in cmd.writes[n0:]]
+        out.append({"mcs": mcs, "layers": layers, "phase": "probe", "size": 9000, "cmd": [w.hex() for w in first], "disp": len(disp.writes)})
+        out[-1]["path"] = path
+    return out
+
+
+def boundary_second(work, plan):
+    """plan: list of (mcs, layers, path, [sizes]) -> per size the command writes of upload_and_display and the file content"""
+    common.scrub_process_env()
+    os.environ["HOME"] = work
+    os.environ["XDG_STATE_HOME"] = os.path.join(work, "state")
+    os.environ["XDG_CONFIG_HOME"] = os.path.join(work, "config")
+    import tupimage
+    rnd = _random.Random(99)
+    tty_in = open("/dev/tty", "rb", buffering=0)
+    out = []
+    for mcs, layers, path, sizes in plan:
+        d = os.path.dirname(path)
+        cmd = common.RecStream()
+        disp = common.RecStream()
+        t = tupimage.TupimageTerminal(out_command=cmd, out_display=disp, in_response=tty_in, id_database=os.path.join(d, "s.db"), terminal_id="b", session_id="b",
+                                      config="DEFAULT", upload_method="direct", max_command_size=mcs, num_tmux_layers=layers, id_space="8bit", id_subspace="30:40",
+                                      redetect_terminal=False)
+        for size in sizes:
+            content = _png_of_size(rnd, size)
+            if content is None:
+                continue
+            with open(path, "wb") as f:
+                f.write(content)
+            os.utime(path, ns=(1_700_000_000_000_000_000, 1_700_000_000_000_000_000))
+            n0, d0 = len(cmd.writes), len(disp.writes)
+            exc = None
+            try:
+                t.upload_and_display(path, cols=2, rows=1, force_upload=True)
+            except Exception as e:  # noqa
+                exc = f"{type(e).__name__}: {e}"
+            out.append({"mcs": mcs, "layers": layers, "size": size, "content": content.hex(), "cmd": [bytes(w).hex() for w in cmd.writes[n0:]],
+                        "printed": len(disp.writes) > d0, "exc": exc})
+    return out
+
+
+def chunk_boundaries(ctx, model, cov):
+    """Inline transmissions whose length is an exact multiple of the chunk payload (and one byte around it): the terminal must
+    hold the complete file when the placeholder is printed — the last chunk closes the transmission (m=0 or no m), the
+    concatenated payloads are the file."""
+    work = ctx.work
+    r = common.in_pty(lambda: boundary_child(work, ctx.rng.randrange(2**30)), timeout=300)
+    if "ok" not in r:
+        ctx.corr_breaks.append({"what": "chunk-boundary probes failed in the pty sandbox", "error": {k: v for k, v in r.items() if k != "tty"}})
+        return
+
+    def parse(writes_hex, layers):
+        """-> list of (keys dict, payload bytes) per escape, through the Spec unwrapper and the Spec command parser"""
+        reqs = [f"c11.spec_unwrapn {layers} {w}" for w in writes_hex]
+        inner = model.batch(reqs) if reqs else []
+        esc = [x for x in inner]
+        reps = model.batch([f"cmd.spec_parse {e}" for e in esc]) if esc else []
+        outp = []
+        for rep in reps:
+            if rep == "NONE" or ";" not in rep:
+                outp.append(None)
+                continue
+            kvs, payload = rep.split(";")
+            kv = {}
+            if kvs != "_":
+                for item in kvs.split(","):
+                    kk, vv = item.split(":")
+                    kv[kk] = bytes.fromhex(vv).decode() if vv != "-" else ""
+            outp.append((kv, b"" if payload in ("NOPAYLOAD", "-") else bytes.fromhex(payload)))
+        return outp
+
+    plan = []
+    for rec in r["ok"]:
+        chunks = parse(rec["cmd"], rec["layers"])
+        if not chunks or chunks[0] is None or len(chunks) < 2:
+            ctx.corr_breaks.append({"what": "chunk-boundary probe: the 9000-byte file was not transmitted in several parsable chunks", "case": {k: rec[k] for k in ("mcs", "layers")}})
+            continue
+        L = len(chunks[0][1])
+        sizes = sorted({k * L + dlt for k in (1, 2, 3) for dlt in (-1, 0, 1) if k * L + dlt >= 200})
+        plan.append((rec["mcs"], rec["layers"], rec["path"], sizes))
+        cov.bump("boundary-probe-chunk-bytes-%d-%d" % (rec["mcs"], rec["layers"]), L)
+    if not plan:
+        return
+    r2 = common.in_pty(lambda: boundary_second(work, plan), timeout=300)
+    if "ok" not in r2:
+        ctx.corr_breaks.append({"what": "chunk-boundary uploads failed in the pty sandbox", "error": {k: v for k, v in r2.items() if k != "tty"}})
+        return
+    for rec in r2["ok"]:
+        case = {"kind": "chunk-boundary", "mcs": rec["mcs"], "layers": rec["layers"], "size": rec["size"]}
+        chunks = parse(rec["cmd"], rec["layers"])
+        content = bytes.fromhex(rec["content"])
+        cov.add(dict(case, chunks=len(chunks)), klass=f"chunk-boundary/mcs={rec['mcs']}/layers={rec['layers']}")
+        bad = None
+        if rec["exc"]:
+            bad = ("unexpected-exception", f"upload_and_display raised {rec['exc']}")
+        elif not chunks or any(c is None for c in chunks):
+            bad = ("unparsable-command", "a command of the transmission does not parse by the protocol's format")
+        else:
+            data = b"".join(pl for _, pl in chunks)
+            opened = [kv.get("m") == "1" for kv, _ in chunks]
+            if opened[-1]:
+                bad = ("image-not-complete-when-displayed", f"the last of {len(chunks)} chunks says m=1: the transmission is never closed, the terminal holds no image when the placeholder is printed")
+            elif not all(opened[:-1]):
+                bad = ("image-not-complete-when-displayed", "a chunk before the last one closes the transmission (m=0): the rest is lost")
+            elif data != content:
+                bad = ("transmitted-bytes-differ-from-file", f"the chunks concatenate to {len(data)} bytes, the file has {len(content)}")
+            elif not rec["printed"]:
+                bad = ("nothing-printed", "no placeholder was printed")
+        if bad:
+            ctx.violations.append({"signature": {"class": bad[0], "path": "chunk-boundary"},
+                                   "what": f"inline upload of a {rec['size']}-byte file with max_command_size={rec['mcs']}, {rec['layers']} tmux layer(s): {bad[1]}", "case": case})
+
+
 def run(ctx, model):
     cov = common.Coverage("case = one call of a history (operation, subject kind, resolved method, SSH, what was transmitted/printed/raised); non-trivial = the call transmitted, printed or raised; distinct by hash; every call is judged by the terminal simulator and compared with the model")
     if model is None:
@@ -868,6 +1031,7 @@ def run(ctx, model):
             ctx.corr_breaks.append({"what": f"witness {which} could not run", "error": o["error"]})
         elif o["violates"]:
             ctx.violations.append({"signature": {"class": klass}, "what": what + f" — observed {o}", "case": {"kind": f"witness-{which}"}})
+    chunk_boundaries(ctx, model, cov)
     n = ctx.pick(200, 5000)
     jobs = plan_jobs(ctx, n)
     logs, err = run_jobs(ctx, jobs)
@@ -1007,6 +1171,12 @@ def replay(ctx, model, rec):
         return run_witness(ctx, "mark")
     if kind in ("witness-digest", "witness-same-bytes"):
         return run_witness(ctx, "digest")
+    if kind == "chunk-boundary":
+        sub = common.Ctx(ctx.prop, ctx.tier, ctx.seed)
+        sub.work = ctx.work
+        chunk_boundaries(sub, model, common.Coverage("replay"))
+        hits = [v for v in sub.violations if v["case"].get("mcs") == case.get("mcs") and v["case"].get("layers") == case.get("layers")]
+        return {"violates": bool(hits), "violations": [v["what"] for v in hits][:4]}
     if kind == "history":
         logs, err = run_jobs(ctx, [case["job"]])
         if err or not logs:
